@@ -1267,3 +1267,94 @@ mut("quiet-rename-reply-field", ["C17"], [("notifications.go", "reply:", "answer
 mut("quiet-rename-locals-headers", ["C01", "C02", "C04", "C08", "C18"], [(BM, "headerWriteBatch", "batch", "all"), (BM, "knownWork", "kw", "all"), (BM, "totalWork", "tw", "all")], [])
 mut("quiet-rename-bestpeer", ["C04"], [(BM, "bestPeer", "candidate", "all")], [])
 mut("quiet-rename-errchan-rescan", ["C17"], [(RS, "	errChan := make(chan error, 1)\n\n	if !atomic", "	done := make(chan error, 1)\n	errChan := done\n\n	if !atomic")], [])
+
+# ---- rules added after the first batch of independently seeded changes ----
+mut("c01-no-break-after-checkpoint", ["C01"], [(BM, '''				b.resetHeaderListToChainTip()
+				return
+			}
+			break
+		}
+	}
+''', '''				b.resetHeaderListToChainTip()
+				return
+			}
+		}
+	}
+''')], ["C01.G5"])
+mut("c03-unspendable-exemption", ["C03"], [("verification.go", "case txOut.PkScript[0] == txscript.OP_RETURN:", "case txscript.IsUnspendable(txOut.PkScript):")], ["C03.G4"])
+mut("c03-filter-miss-logged-only", ["C03"], [("verification.go", '''			if !match {
+				return 0, fmt.Errorf("filter for block %v is "+
+					"invalid, outpoint %v:%d script %x "+
+					"wasn't matched by filter",
+					block.Hash(), tx.Hash(), outIdx,
+					txOut.PkScript)
+			}''', '''			if !match {
+				log.Debugf("filter for block %v is "+
+					"invalid, outpoint %v:%d script %x "+
+					"wasn't matched by filter",
+					block.Hash(), tx.Hash(), outIdx,
+					txOut.PkScript)
+			}''')], ["C03.G4"])
+mut("c07-tip-in-second-tx", ["C07", "C08"], [("headerfs/index.go", '''		return rootBucket.Put(tipKey, chainTipHash[:])
+	})
+}''', '''		_ = tipKey
+		return h.zzSetTip(chainTipHash)
+	})
+}
+
+func (h *headerIndex) zzSetTip(tip chainhash.Hash) error {
+	return walletdb.Update(h.db, func(tx walletdb.ReadWriteTx) error {
+		tipKey, err := h.indexType.TipKey()
+		if err != nil {
+			return err
+		}
+		return tx.ReadWriteBucket(indexBucket).Put(tipKey, tip[:])
+	})
+}''')], ["C07.O2", "C08.O5"])
+mut("c10-spends-before-new-requests", ["C10"], [("batch_spend_reporter.go", '''	if len(newReqs) > 0 {
+		b.addNewRequests(newReqs)
+		b.findInitialTransactions(blk, newReqs, height)
+	}
+
+	// Next, filter the block for any spends using the current set of
+	// watched outpoints. This will include any new requests added above.
+	spends := b.notifySpends(blk, height)
+''', '''	spends := b.notifySpends(blk, height)
+	if len(newReqs) > 0 {
+		b.addNewRequests(newReqs)
+		b.findInitialTransactions(blk, newReqs, height)
+	}
+''')], ["C10.O3"])
+mut("c09-match-ends-output-scan", ["C09"], [(RS, "			continue txOutLoop\n", "			break txOutLoop\n")], ["C09.V1"])
+
+# ---- helper extraction in the cfilter handler: correct (quiet) and wrong ----
+_H_OLD = """	var (
+		curHeader  = q.filterHeaders[i]
+		prevHeader = q.filterHeaders[i-1]
+	)
+	filterHeader, err := builder.MakeHeaderForFilter(filter, prevHeader)
+	if err != nil {
+		return noProgress
+	}
+
+	if filterHeader != curHeader {
+		return noProgress
+	}
+"""
+_H_CALL = """	if !q.zzMatchesFilterHeader(i, filter) {
+		return noProgress
+	}
+"""
+_H_ANCHOR = """// prepareCFiltersQuery creates a cfiltersQuery that can be used to fetch a"""
+def _helper(body):
+    return """func (q *cfiltersQuery) zzMatchesFilterHeader(i int, filter *gcs.Filter) bool {
+	curHeader := q.filterHeaders[i]
+	prevHeader := q.filterHeaders[i-1]
+	filterHeader, err := builder.MakeHeaderForFilter(filter, prevHeader)
+""" + body + """}
+
+""" + _H_ANCHOR
+mut("c05-quiet-extract-helper-and", ["C05"], [(Q, _H_OLD, _H_CALL), (Q, _H_ANCHOR, _helper("	return err == nil && filterHeader == curHeader\n"))], [])
+mut("c05-quiet-extract-helper-ifs", ["C05"], [(Q, _H_OLD, _H_CALL), (Q, _H_ANCHOR, _helper("	if err != nil {\n		return false\n	}\n	return filterHeader == curHeader\n"))], [])
+mut("c05-extract-helper-or", ["C05"], [(Q, _H_OLD, _H_CALL), (Q, _H_ANCHOR, _helper("	return err == nil || filterHeader == curHeader\n"))], ["C05.G1"])
+mut("c05-extract-helper-wrong-index", ["C05"], [(Q, _H_OLD, _H_CALL.replace("(i, filter)", "(i-1, filter)")), (Q, _H_ANCHOR, _helper("	return err == nil && filterHeader == curHeader\n"))], ["C05.V1"])
